@@ -19,5 +19,5 @@ MANIFEST = {
     "design_ref": "DESIGN.md §5 C17",
     "technique": "Lean 4 theorems: verified reference analyses (exact w.r.t. inductive textbook definitions) + equality/certificate check of the Rust answers on every dumped grammar",
     "text": "Theorems (Props/C17.lean), for every well-formed grammar: the reference nullable/FIRST/FOLLOW sets equal the inductive textbook predicates (analyses_exact), the reference reachability equals Reach (has_path_spec), the reference minimal costs are exact for every token-cost function: none iff nothing derivable, otherwise attained and a lower bound (min_cost_exact); a bound table passing the certificate bounds every derivable string (max_cost_upper_bound); the bounded recogniser is sound (recog_sound). The implementation's sets must EQUAL the verified references on each generated grammar and its cost answers must pass the certificates; cost queries run under a watchdog so non-termination is observed.",
-    "note": "Per-grammar validation against verified references, so the grammar quantifier is sampled. Not proved: fuel sufficiency of the reference iterations (a fuel-out is reported, never silently accepted), and the 'unbounded maximal cost' verdict (used only to accept `None`). Trusted: Lean kernel + standard axioms, harness dump of the grammar through the public API (consistency of rule_to_prods/prod_to_rule checked), orchestrator.",
+    "note": "Per-grammar validation against verified references, so the grammar quantifier is sampled. Termination of the reference nullable/FIRST/FOLLOW/reachability iterations is proved (reference_analyses_total, reference_reach_total via Fix.lfp_total: |universe|+1 rounds always suffice). Not proved: fuel sufficiency of the reference cost iteration (a fuel-out is reported, never silently accepted), and the 'unbounded maximal cost' verdict (used only to accept `None`). Trusted: Lean kernel + standard axioms, harness dump of the grammar through the public API (consistency of rule_to_prods/prod_to_rule checked), orchestrator.",
 }
